@@ -11,7 +11,8 @@ import itertools
 import os
 from typing import List, Tuple
 
-from teaal.ir.component import FunctionalComponent
+from teaal.ir.component import (BuffetComponent, ComputeComponent, FunctionalComponent, LeaderFollowerComponent,
+                                MergerComponent, SequencerComponent, SkipAheadComponent, TwoFingerComponent)
 from teaal.ir.fusion import Fusion
 
 NR = int(os.environ.get("CH_RANKS", "2"))            # 2 ranks (quick) or 3 ranks (thorough)
@@ -95,10 +96,31 @@ class _HW:
         self.comps = comps
 
     def get_components(self, einsum, cls):
-        return self.comps
+        # like Hardware.get_components: the components named in this Einsum's bindings, filtered by class
+        return [c for c in self.comps if isinstance(c, cls)]
 
     def get_config(self, einsum):
         return self.cfg[einsum]
+
+
+# component kinds: (real class, attributes, one binding, does the property call it a functional component?)
+KINDS = [
+    (ComputeComponent, {"type": "mul"}, {"op": "mul"}, True),
+    (TwoFingerComponent, {"type": "two-finger"}, {"rank": "K"}, True),
+    (SkipAheadComponent, {"type": "skip-ahead"}, {"rank": "K"}, True),
+    (LeaderFollowerComponent, {"type": "leader-follower"}, {"rank": "K", "leader": "A"}, True),
+    (SequencerComponent, {"num_ranks": 2}, {"rank": "K"}, True),
+    (MergerComponent, {"inputs": 2, "comparator_radix": 2, "outputs": 1, "order": "fifo", "reduce": False},
+     {"tensor": "A", "init-ranks": ["M", "K"], "final-ranks": ["K", "M"]}, False),
+    (BuffetComponent, {"width": 8, "depth": 8},
+     {"tensor": "A", "rank": "K", "type": "coord", "format": "default", "evict-on": "root"}, False),
+]
+NK = len(KINDS)
+
+
+def real_comp(kind, name, bound_in):
+    cls, attrs, binding, _ = KINDS[kind]
+    return cls(name, 1, dict(attrs), {e: [dict(binding)] for e in bound_in})
 
 
 def conc(x, n):
@@ -111,6 +133,45 @@ def conc(x, n):
 
 def prefix(p, s):
     return PERMS[p][:s] if s < NR else PERMS[p]
+
+
+def step_kinds(ka: int, kb: int, ua: bool, ub: bool, a1: bool, b1: bool) -> bool:
+    """
+    the component condition with REAL component classes: two components of symbolic kind (compute, the three
+    intersectors, sequencer, merger, buffet); same config and temporal prefix, so only the components decide
+    pre: 0 <= ka < NK and 0 <= kb < NK
+    post: _
+    """
+    ka, kb = conc(ka, NK), conc(kb, NK)
+    ua = True if ua else False
+    ub = True if ub else False
+    a1 = True if a1 else False
+    b1 = True if b1 else False
+    comps = [real_comp(ka, "A", ["E1"] if a1 else []), real_comp(kb, "B", ["E1"] if b1 else [])]
+    # Hardware.get_components only returns components named in the Einsum's bindings
+    comps = [c for c, used in zip(comps, (a1, b1)) if used]
+    hw = _HW({"E1": "cfg0"}, comps)
+    f = Fusion(hw)
+    f.blocks = [["E0"]]
+    f.curr_block = f.blocks[-1]
+    f.curr_config = "cfg0"
+    f.fused_ranks = ["M"]
+    fa, fb = KINDS[ka][3], KINDS[kb][3]
+    used = set()
+    if ua and fa:
+        used.add("A")
+    if ub and fb:
+        used.add("B")
+    f.components_used = set(used)
+    f.add_einsum(_Prog("E1", ["M", "K"], ["K"]))
+    new = set()
+    if a1 and fa:
+        new.add("A")
+    if b1 and fb:
+        new.add("B")
+    if used & new:
+        return f.blocks == [["E0"], ["E1"]] and f.components_used == new
+    return f.blocks == [["E0", "E1"]] and f.components_used == (used | new)
 
 
 def step(c0: int, p0: int, s0: int, ua: bool, ub: bool, c1: int, p1: int, s1: int, a1: bool, b1: bool) -> bool:
